@@ -666,7 +666,7 @@ class C02(core.Check):
         a = signed(c) + signed(st)
         if not in16(a):
             return [1, 6]
-        ends = a > signed(stop) if sgn > 0 else signed(stop) > a
+        ends = a > signed(stop) if sgn >= 0 else signed(stop) > a
         return [0] + enc(a) + [int(ends)]
 
     def expected(self, case):
